@@ -173,7 +173,7 @@ def apply_R1(chunk, loop_idx, log, where):
     p, brace, kw = loops[loop_idx]
     t = chunk.text()
     hdr = t[p:brace + 1]
-    m = re.fullmatch(r'for\s*\(\s*(\w+)\s*,\s*(\w+)\s*\)\s+in\s+(.+?)\.(iter|iter_mut)\(\)\.enumerate\(\)\s*\{', hdr, re.S)
+    m = re.fullmatch(r'for\s*\(\s*(\w+)\s*,\s*(\w+|\([\w\s,]+\))\s*\)\s+in\s+(.+?)\.(iter|iter_mut)\(\)\.enumerate\(\)\s*\{', hdr, re.S)
     if not m:
         raise ExtractError('R1: loop #%d header %r in %s is not an enumerate loop' % (loop_idx, hdr, where))
     i, x, e, it = m.group(1), m.group(2), m.group(3).strip(), m.group(4)
@@ -407,7 +407,7 @@ def lift_named_closure(chunk, header_re, signature, log, where):
     chunk.lines = new_lines
 
 
-def lift_closure(chunk, index, name, log, where, extra_params=None, ret_type='Value'):
+def lift_closure(chunk, index, name, log, where, extra_params=None, ret_type='Value', lead_params=None):
     """R4: the block of the index-th `Box::new(move |scope: &Scope| { .. })` closure of a build_* function
     becomes the body of `pub fn name(..) -> Value`. Leading `let v = ev(scope);` statements (operand
     evaluation through captured sub-evaluators) become parameters `v: Value`. Everything else of the
@@ -441,6 +441,8 @@ def lift_closure(chunk, index, name, log, where, extra_params=None, ret_type='Va
         k += 1
     rest = body[k:]
     plist = ', '.join('%s%s: Value' % ('mut ' if mut else '', v) for (v, mut, _) in params)
+    if lead_params:
+        plist = ', '.join(list(lead_params) + ([plist] if plist else []))
     if extra_params:
         plist = ', '.join([plist] + list(extra_params)) if plist else ', '.join(extra_params)
     hdr_origin = ('rw', 'R4', chunk.lines[li0].origin)
@@ -829,7 +831,7 @@ def build_unit(udef, cover=False):
             if part.get('closure_header'):
                 lift_named_closure(chunk, part['closure_header'], part['signature'], b.rewrites, fnkey)
             else:
-                lift_closure(chunk, part.get('index', 0), part['name'], b.rewrites, fnkey, part.get('extra_params'), part.get('ret_type', 'Value'))
+                lift_closure(chunk, part.get('index', 0), part['name'], b.rewrites, fnkey, part.get('extra_params'), part.get('ret_type', 'Value'), part.get('lead_params'))
             build_fn_chunk(chunk, part, fnkey, b, cover and part.get('cover', True), relpath)
             first_idx = len(L)
             if part.get('impl_header'):
